@@ -266,7 +266,7 @@ class Fault:
 class Server:
     """Listens on 127.0.0.1:<ephemeral>; every accepted connection runs `behaviour(conn)` in its own thread."""
 
-    def __init__(self, behaviour, faults=(), segment=0, io_timeout=3.0, stall_limit=6.0, backlog=128):
+    def __init__(self, behaviour, faults=(), segment=0, io_timeout=3.0, stall_limit=6.0, backlog=128, bind_addr='127.0.0.1'):
         self.behaviour, self.faults, self.segment = behaviour, list(faults), segment
         self.io_timeout, self.stall_limit = io_timeout, stall_limit
         self.log, self.rx_raw = [], []
@@ -277,7 +277,7 @@ class Server:
         self.lock = threading.Lock()
         self.ls = socket.socket(socket.AF_INET, socket.SOCK_STREAM)
         self.ls.setsockopt(socket.SOL_SOCKET, socket.SO_REUSEADDR, 1)
-        self.ls.bind(('127.0.0.1', 0))
+        self.ls.bind((bind_addr, 0))     # '0.0.0.0': reachable as 127.0.0.1, 127.0.0.2, ... (a host name with several addresses)
         self.ls.listen(backlog)
         self.port = self.ls.getsockname()[1]
         self.threads = []
